@@ -1,4 +1,5 @@
-// Command race (C18, part d): read-only library calls on SHARED values from 8 goroutines.
+// Command race (C18, part d): read-only library calls from 8 goroutines: first a COLD phase on
+// fresh inputs without any warm-up (cold.go), then calls on SHARED values.
 // Built with `go build -race`; any race report makes the process exit with code 66, any
 // result that differs from the sequentially computed one prints a WRONG line and exits 1.
 package main
@@ -113,6 +114,13 @@ func main() {
 	if len(os.Args) > 1 {
 		iters, _ = strconv.Atoi(os.Args[1])
 	}
+	// cold state first: nothing of the library has run yet in this process
+	cold := iters / 6
+	if cold < 25 {
+		cold = 25
+	}
+	coldPhase(cold)
+
 	var ops []op
 	add := func(name string, f func() string) { ops = append(ops, op{name: name, f: f}) }
 
